@@ -313,3 +313,348 @@ Proof.
       split; intros [Hc Hi]; split; auto; lia.
     + apply (keys_aset_nodup Nat.eqb nat_eqb_eq); auto.
 Qed.
+
+(* ------------------------------------------------------------------ the full invariant *)
+Definition reg_inv (W : world) (r : reg) : Prop :=
+  ec_inv W (provided_cnt r) (extendors r) /\
+  forall p, n_ad (adapters r) p + n_su (subscribers r) p <= cnt_get (provided_cnt r) p.
+
+Lemma reg_inv_changed W r : reg_inv W r -> reg_inv W (changed r).
+Proof. intros H. exact H. Qed.
+
+Lemma reg_inv_fields W r r' :
+  adapters r' = adapters r -> subscribers r' = subscribers r ->
+  provided_cnt r' = provided_cnt r -> extendors r' = extendors r ->
+  reg_inv W r -> reg_inv W r'.
+Proof. unfold reg_inv. intros -> -> -> ->. auto. Qed.
+
+Lemma adapters_incr W r p : adapters (provide_incr W r p) = adapters r.
+Proof. reflexivity. Qed.
+Lemma subscribers_incr W r p : subscribers (provide_incr W r p) = subscribers r.
+Proof. reflexivity. Qed.
+Lemma adapters_decr W r p k : adapters (provide_decr W r p k) = adapters r.
+Proof. unfold provide_decr. cbv zeta. destruct (Nat.eqb _ 0); reflexivity. Qed.
+Lemma subscribers_decr W r p k : subscribers (provide_decr W r p k) = subscribers r.
+Proof. unfold provide_decr. cbv zeta. destruct (Nat.eqb _ 0); reflexivity. Qed.
+
+Lemma n_ad_aset_le a k v q :
+  n_ad (aset akey_eqb a k v) q <= n_ad a q + (if Nat.eqb (akey_provided k) q then 1 else 0).
+Proof.
+  unfold n_ad. destruct (aget akey_eqb a k) as [old|] eqn:E.
+  - pose proof (sumw_aset_some akey_eqb akey_eqb_eq (wa q) a k v old E) as H. unfold wa in *. lia.
+  - rewrite (sumw_aset_none akey_eqb (wa q) a k v E). unfold wa. lia.
+Qed.
+
+Lemma n_ad_adel a k old q : aget akey_eqb a k = Some old ->
+  n_ad (adel akey_eqb a k) q + (if Nat.eqb (akey_provided k) q then 1 else 0) = n_ad a q.
+Proof. intros E. unfold n_ad. apply (sumw_adel_some akey_eqb akey_eqb_eq (wa q) a k old E). Qed.
+
+Lemma inv_register_some W r req p n v : wf_world W -> reg_inv W r ->
+  reg_inv W (changed (provide_incr W (mkReg (aset akey_eqb (adapters r) (map conv req, p, n) v)
+                                           (subscribers r) (provided_cnt r) (extendors r) (generation r)) p)).
+Proof.
+  intros Hwf [Hec Hc]. apply reg_inv_changed.
+  set (r1 := mkReg _ _ _ _ _).
+  destruct (ec_inv_incr W r1 p Hwf Hec) as [Hec' Hcnt].
+  split; auto. intros q. rewrite adapters_incr, subscribers_incr, Hcnt. cbn [adapters subscribers provided_cnt r1].
+  pose proof (n_ad_aset_le (adapters r) (map conv req, p, n) v q) as H.
+  unfold akey_provided in H. cbn [fst snd] in H. specialize (Hc q).
+  rewrite (Nat.eqb_sym q p). destruct (Nat.eqb p q) eqn:E; [apply Nat.eqb_eq in E; subst|]; lia.
+Qed.
+
+Lemma inv_unregister_some W r req p n old : wf_world W -> reg_inv W r ->
+  aget akey_eqb (adapters r) (map conv req, p, n) = Some old ->
+  reg_inv W (changed (provide_decr W (mkReg (adel akey_eqb (adapters r) (map conv req, p, n))
+                                           (subscribers r) (provided_cnt r) (extendors r) (generation r)) p 1)).
+Proof.
+  intros Hwf [Hec Hc] Hg. apply reg_inv_changed.
+  set (r1 := mkReg _ _ _ _ _).
+  destruct (ec_inv_decr W r1 p 1 Hwf Hec) as [Hec' Hcnt].
+  split; auto. intros q. rewrite adapters_decr, subscribers_decr, Hcnt. cbn [adapters subscribers provided_cnt r1].
+  pose proof (n_ad_adel (adapters r) _ old q Hg) as H.
+  unfold akey_provided in H. cbn [fst snd] in H. specialize (Hc q).
+  rewrite (Nat.eqb_sym q p). destruct (Nat.eqb p q) eqn:E; [apply Nat.eqb_eq in E; subst|]; lia.
+Qed.
+
+Lemma inv_unregister W r req p n v : wf_world W -> reg_inv W r -> reg_inv W (unregister W r req p n v).
+Proof.
+  intros Hwf Hi. unfold unregister. cbv zeta.
+  destruct (aget akey_eqb (adapters r) (map conv req, p, n)) as [old|] eqn:E; auto.
+  destruct v as [v'|]; [destruct (v_is old v'); auto|]; eapply inv_unregister_some; eauto.
+Qed.
+
+Lemma inv_register W r req p n v : wf_world W -> reg_inv W r -> reg_inv W (register W r req p n v).
+Proof.
+  intros Hwf Hi. unfold register. destruct v as [v'|]; [|apply inv_unregister; auto]. cbv zeta.
+  destruct (aget akey_eqb (adapters r) (map conv req, p, n)) as [old|] eqn:E.
+  - destruct (v_is old v'); auto. apply inv_register_some; auto.
+  - apply inv_register_some; auto.
+Qed.
+
+Lemma sub_leaf_aget r k : sub_leaf r k <> [] -> aget skey_eqb (subscribers r) k = Some (sub_leaf r k).
+Proof. unfold sub_leaf. destruct (aget skey_eqb (subscribers r) k); auto. congruence. Qed.
+
+Lemma n_su_aset s k new q old :
+  (aget skey_eqb s k = Some old \/ (aget skey_eqb s k = None /\ old = [])) ->
+  n_su (aset skey_eqb s k new) q + ws q k old = n_su s q + ws q k new.
+Proof.
+  unfold n_su. intros [E|[E ->]].
+  - apply (sumw_aset_some skey_eqb skey_eqb_eq (ws q) s k new old E).
+  - rewrite (sumw_aset_none skey_eqb (ws q) s k new E). unfold ws. cbn. destruct (ospec_eqb _ _); lia.
+Qed.
+
+Lemma sub_leaf_cases r k :
+  aget skey_eqb (subscribers r) k = Some (sub_leaf r k) \/
+  (aget skey_eqb (subscribers r) k = None /\ sub_leaf r k = []).
+Proof. unfold sub_leaf. destruct (aget skey_eqb (subscribers r) k); auto. Qed.
+
+Lemma inv_subscribe W r req p v : wf_world W -> reg_inv W r -> reg_inv W (subscribe W r req p v).
+Proof.
+  intros Hwf [Hec Hc]. unfold subscribe. cbv zeta. apply reg_inv_changed.
+  set (k := (map conv req, p)).
+  pose proof (fun q => n_su_aset (subscribers r) k (sub_leaf r k ++ [v]) q (sub_leaf r k) (sub_leaf_cases r k)) as Hs.
+  destruct p as [p'|].
+  - set (r1 := mkReg _ _ _ _ _).
+    destruct (ec_inv_incr W r1 p' Hwf Hec) as [Hec' Hcnt].
+    split; auto. intros q. rewrite adapters_incr, subscribers_incr, Hcnt.
+    cbn [adapters subscribers provided_cnt r1]. specialize (Hs q). specialize (Hc q).
+    unfold ws in Hs. cbn [snd k ospec_eqb] in Hs. rewrite app_length in Hs. cbn [length] in Hs.
+    rewrite (Nat.eqb_sym q p'). destruct (Nat.eqb p' q) eqn:E; [apply Nat.eqb_eq in E; subst|]; lia.
+  - split; auto. intros q. cbn [adapters subscribers provided_cnt]. specialize (Hs q). specialize (Hc q).
+    unfold ws in Hs. cbn [snd k ospec_eqb] in Hs. lia.
+Qed.
+
+Lemma filter_length_le {A} (f : A -> bool) l : length (filter f l) <= length l.
+Proof. induction l as [|x l IH]; cbn; auto. destruct (f x); cbn; lia. Qed.
+
+Lemma inv_unsubscribe W r req p v : wf_world W -> reg_inv W r -> reg_inv W (unsubscribe W r req p v).
+Proof.
+  intros Hwf [Hec Hc]. unfold unsubscribe. cbv zeta.
+  set (k := (map conv req, p)).
+  destruct (sub_leaf r k) as [|o1 ol] eqn:Eold; [split; auto|].
+  set (old := o1 :: ol) in *.
+  set (new := match v with None => [] | Some v' => filter (fun x => negb (v_eq x v')) old end).
+  destruct (Nat.eqb (length new) (length old)) eqn:El; [split; auto|].
+  apply reg_inv_changed.
+  assert (Hle : length new <= length old).
+  { subst new. destruct v; [apply filter_length_le | cbn; lia]. }
+  assert (Hg : aget skey_eqb (subscribers r) k = Some old).
+  { rewrite <- Eold. apply sub_leaf_aget. rewrite Eold. discriminate. }
+  set (subs := match new with [] => adel skey_eqb (subscribers r) k | _ => aset skey_eqb (subscribers r) k new end).
+  assert (Hs : forall q, n_su subs q + ws q k old = n_su (subscribers r) q + ws q k new).
+  { intros q. subst subs. destruct new as [|n1 nl] eqn:En.
+    - unfold n_su. rewrite <- (sumw_adel_some skey_eqb skey_eqb_eq (ws q) (subscribers r) k old Hg).
+      unfold ws. cbn [length]. destruct (ospec_eqb _ _); lia.
+    - apply n_su_aset. auto. }
+  destruct p as [p'|].
+  - set (r1 := mkReg _ _ _ _ _).
+    destruct (ec_inv_decr W r1 p' (length old - length new) Hwf Hec) as [Hec' Hcnt].
+    split; auto. intros q. rewrite adapters_decr, subscribers_decr, Hcnt.
+    cbn [adapters subscribers provided_cnt r1]. specialize (Hs q). specialize (Hc q).
+    unfold ws in Hs. cbn [snd k ospec_eqb] in Hs.
+    rewrite (Nat.eqb_sym q p'). destruct (Nat.eqb p' q) eqn:E; [apply Nat.eqb_eq in E; subst|]; lia.
+  - split; auto. intros q. cbn [adapters subscribers provided_cnt]. specialize (Hs q). specialize (Hc q).
+    unfold ws in Hs. cbn [snd k ospec_eqb] in Hs. lia.
+Qed.
+
+Lemma reg_inv_empty W g : reg_inv W (mkReg [] [] [] [] g).
+Proof.
+  split; [|intros; cbn; lia]. cbn. split; [|split; [|split]].
+  - intros i p. cbn. split; [tauto|lia].
+  - intros; constructor.
+  - intros; exact I.
+  - constructor.
+Qed.
+
+Lemma inv_rebuild W r : wf_world W -> reg_inv W (rebuild W r).
+Proof.
+  intros Hwf. unfold rebuild. cbv zeta.
+  assert (H0 : reg_inv W (changed (mkReg [] [] [] [] (generation r)))) by apply reg_inv_empty.
+  revert H0. generalize (changed (mkReg [] [] [] [] (generation r))) as r0.
+  intros r0 H0.
+  assert (H1 : reg_inv W (fold_left (fun acc kv => let '(req, p, n) := fst kv in
+                                       register W acc (map Some req) p n (Some (snd kv)))
+                                    (allRegistrations r) r0)).
+  { revert r0 H0. induction (allRegistrations r) as [|[[[rq p] n] v] l IH]; intros r0 H0; cbn [fold_left]; auto.
+    apply IH. cbn [fst snd]. apply inv_register; auto. }
+  revert H1. generalize (fold_left (fun acc kv => let '(req, p, n) := fst kv in
+                                       register W acc (map Some req) p n (Some (snd kv)))
+                                    (allRegistrations r) r0) as r1.
+  intros r1. induction (allSubscriptions r) as [|[[rq p] v] l IH] in r1 |- *; intros H1; cbn [fold_left]; auto.
+  apply IH. cbn [fst snd]. apply inv_subscribe; auto.
+Qed.
+
+Lemma inv_step W r o : wf_world W -> reg_inv W r -> reg_inv W (reg_step W r o).
+Proof.
+  intros Hwf Hi. destruct o; cbn [reg_step].
+  - apply inv_register; auto.
+  - apply inv_unregister; auto.
+  - apply inv_subscribe; auto.
+  - apply inv_unsubscribe; auto.
+  - apply inv_rebuild; auto.
+Qed.
+
+Lemma inv_history W ops : wf_world W -> forall r, reg_inv W r -> reg_inv W (fold_left (reg_step W) ops r).
+Proof. intros Hwf. induction ops as [|o ops IH]; intros r Hi; cbn; auto. apply IH. apply inv_step; auto. Qed.
+
+(* a live registration is counted *)
+Lemma live_counted a k v : aget akey_eqb a k = Some v -> 0 < n_ad a (akey_provided k).
+Proof.
+  intros H. pose proof (n_ad_adel a k v (akey_provided k) H) as E. rewrite Nat.eqb_refl in E. lia.
+Qed.
+
+Lemma reg_inv_ext_inv W r : reg_inv W r -> ext_inv W r.
+Proof.
+  intros [(Hmem & Hnd & Hgf & _) Hc]. unfold ext_inv. repeat (split; [assumption|]). split.
+  - intros p. rewrite n_adapters_sumw, n_subscriptions_sumw. apply Hc.
+  - intros req p n v Hl. unfold live in Hl. apply live_counted in Hl.
+    unfold akey_provided in Hl. cbn [fst snd] in Hl. specialize (Hc p). lia.
+Qed.
+
+Lemma extendors_inv_lemma W : wf_world W -> forall ops, ext_inv W (fold_left (reg_step W) ops empty_reg).
+Proof. intros Hwf ops. apply reg_inv_ext_inv. apply inv_history; auto. apply reg_inv_empty. Qed.
+
+(* ------------------------------------------------------------------ systems of registries:
+   every registry of every state reached by a RegSys history satisfies the invariant, so the
+   lookup theorems apply to the registry list any lookup entry point walks *)
+From ZI Require Import Model.Lookup Model.RegSys.
+
+Section Sys.
+  Variable W : world.
+  Hypothesis Hwf : wf_world W.
+
+  Definition sys_ok (s : sys) : Prop := Forall (fun x => reg_inv W (rs_reg x)) s.
+
+  Lemma get_ok s r : sys_ok s -> reg_inv W (rs_reg (get s r)).
+  Proof.
+    intros H. unfold get. destruct (nth_in_or_default r s dummy_rs) as [Hin| ->].
+    - unfold sys_ok in H. rewrite Forall_forall in H. auto.
+    - apply reg_inv_empty.
+  Qed.
+
+  Lemma set_ok s r x : sys_ok s -> reg_inv W (rs_reg x) -> sys_ok (set s r x).
+  Proof.
+    intros H Hx. revert r. induction H as [|y s Hy Hs IH]; intros r; cbn; [constructor|].
+    destruct r; constructor; auto. apply IH.
+  Qed.
+
+  Lemma upd_ok s r f : sys_ok s -> (forall y, reg_inv W (rs_reg y) -> reg_inv W (rs_reg (f y))) -> sys_ok (upd s r f).
+  Proof. intros H Hf. apply set_ok; auto. apply Hf. apply get_ok; auto. Qed.
+
+  Lemma fold_ok {A} (f : sys -> A -> sys) l : (forall s x, sys_ok s -> sys_ok (f s x)) ->
+    forall s, sys_ok s -> sys_ok (fold_left f l s).
+  Proof. intros Hf. induction l as [|a l IH]; intros s H; cbn; auto. Qed.
+
+  Lemma refresh_ro_ok fuel : forall s r, sys_ok s -> sys_ok (refresh_ro fuel s r).
+  Proof.
+    induction fuel as [|f IH]; intros s r H; cbn [refresh_ro].
+    - apply set_ok; auto. cbn. apply get_ok; auto.
+    - assert (H1 : sys_ok (set s r (mkRS (rs_reg (get s r)) (rs_caches (get s r)) (rs_bases (get s r))
+                                         (fresh_ro s r) (rs_subs (get s r)) (rs_vro (get s r))
+                                         (rs_vgen (get s r)) (rs_flavour (get s r))))).
+      { apply set_ok; auto. cbn. apply get_ok; auto. }
+      destruct (rs_flavour (get s r)); auto. apply fold_ok; auto.
+  Qed.
+
+  Lemma lookup_changed_ok b s r : sys_ok s -> sys_ok (lookup_changed b s r).
+  Proof.
+    intros H. unfold lookup_changed. destruct (rs_flavour (get s r)).
+    - apply set_ok; auto. cbn. apply get_ok; auto.
+    - cbv zeta. try destruct b;
+        (apply set_ok; [|cbn [rs_reg]; apply get_ok]); first [exact H | apply refresh_ro_ok; exact H].
+  Qed.
+
+  Lemma bump_ok s r : sys_ok s -> sys_ok (upd s r bump).
+  Proof. intros H. apply upd_ok; auto; intros y Hy; cbn; apply reg_inv_changed; auto. Qed.
+
+  Lemma sub_changed_ok fuel : forall s r, sys_ok s -> sys_ok (sub_changed fuel s r).
+  Proof.
+    induction fuel as [|f IH]; intros s r H; cbn [sub_changed].
+    - apply lookup_changed_ok, bump_ok; auto.
+    - assert (H1 : sys_ok (lookup_changed false (upd s r bump) r)) by (apply lookup_changed_ok, bump_ok; auto).
+      destruct (rs_flavour _); auto. apply fold_ok; auto.
+  Qed.
+
+  Lemma after_bump_ok s r : sys_ok s -> sys_ok (after_bump s r).
+  Proof.
+    intros H. unfold after_bump. cbv zeta.
+    assert (H1 : sys_ok (lookup_changed false s r)) by (apply lookup_changed_ok; auto).
+    destruct (rs_flavour _); auto. apply fold_ok; auto. intros; apply sub_changed_ok; auto.
+  Qed.
+
+  Lemma mutate_ok s r f : (forall g, reg_inv W g -> reg_inv W (f g)) -> sys_ok s -> sys_ok (mutate s r f).
+  Proof.
+    intros Hf H. unfold mutate. cbv zeta. destruct (Nat.eqb _ _); auto.
+    apply after_bump_ok. apply set_ok; auto. cbn. apply Hf, get_ok; auto.
+  Qed.
+
+  Lemma set_bases_ok s r bs : sys_ok s -> sys_ok (set_bases s r bs).
+  Proof.
+    intros H. unfold set_bases. cbv zeta. apply after_bump_ok, bump_ok, refresh_ro_ok.
+    apply upd_ok; [|intros y Hy; exact Hy].
+    destruct (rs_flavour (get s r)); auto.
+    apply fold_ok; [intros s0 b H0; destruct (mem b (rs_bases (get s r))); auto; apply upd_ok; auto|].
+    apply fold_ok; [intros s0 b H0; destruct (mem b bs); auto; apply upd_ok; auto|]. auto.
+  Qed.
+
+  Lemma new_reg_ok s fl bs : sys_ok s -> sys_ok (new_reg s fl bs).
+  Proof.
+    intros H. unfold new_reg. cbv zeta. apply set_bases_ok. apply Forall_app. split; auto.
+    constructor; [|constructor]. cbn. apply reg_inv_empty.
+  Qed.
+
+  Lemma verify_ok s r : sys_ok s -> sys_ok (verify s r).
+  Proof.
+    intros H. unfold verify. cbv zeta. destruct (rs_flavour _); auto.
+    destruct (lspec_eqb _ _); auto. apply lookup_changed_ok; auto.
+  Qed.
+
+  Variable call : value -> list nat -> option nat.
+
+  Lemma with_lookup_ok {A} s r f : sys_ok s -> sys_ok (fst (@with_lookup W A s r f)).
+  Proof.
+    intros H. unfold with_lookup. cbv zeta. destruct (f _ _ _ _) as [c' a]. cbn [fst].
+    apply upd_ok; [apply verify_ok; auto|]. intros y Hy. exact Hy.
+  Qed.
+
+  Lemma step_ok s o : sys_ok s -> sys_ok (fst (step W call s o)).
+  Proof.
+    intros H. destruct o; cbn [step fst];
+      try (apply mutate_ok; auto; intros g Hg;
+           first [apply inv_register | apply inv_unregister | apply inv_subscribe | apply inv_unsubscribe]; auto);
+      try match goal with
+          | |- sys_ok (fst (let '(s', a) := with_lookup ?W ?s ?r ?f in _)) =>
+              let Hw := fresh in
+              pose proof (with_lookup_ok s r f H) as Hw;
+              destruct (with_lookup W s r f); exact Hw
+          end; auto.
+    - apply new_reg_ok; auto.
+    - apply set_bases_ok; auto.
+    - apply after_bump_ok. apply set_ok; auto. cbn. apply inv_rebuild; auto.
+  Qed.
+
+  Lemma final_ok ops : forall s, sys_ok s -> sys_ok (final W call s ops).
+  Proof.
+    unfold final. induction ops as [|o ops IH]; intros s H; cbn; auto. apply IH, step_ok; auto.
+  Qed.
+
+  Lemma system_inv_lemma ops r : Forall (ext_inv W) (ro_regs (final W call [] ops) r).
+  Proof.
+    unfold ro_regs. apply Forall_forall. intros x Hx. apply in_map_iff in Hx.
+    destruct Hx as (i & <- & _). apply reg_inv_ext_inv. apply get_ok. apply final_ok. constructor.
+  Qed.
+End Sys.
+
+(* ------------------------------------------------------------------ None means any *)
+Lemma conv_some_conv req : map conv (map (fun x => Some (conv x)) req) = map conv req.
+Proof. rewrite map_map. apply map_ext. intros [x|]; reflexivity. Qed.
+
+Lemma none_means_any_lemma W : root_everywhere W ->
+  forall r req p n v,
+    register W r req p n v = register W r (map (fun x => Some (conv x)) req) p n v /\
+    unregister W r req p n v = unregister W r (map (fun x => Some (conv x)) req) p n v /\
+    forall s, isOrExtends W s (conv None) = true.
+Proof.
+  intros Hroot r req p n v. unfold register, unregister. rewrite conv_some_conv.
+  repeat split; auto. intros s. apply memP. apply Hroot.
+Qed.
